@@ -43,6 +43,12 @@ func Conc(seed int64, goroutines, iters int) []trace.Event {
 				<-start
 				fails, first := 0, ""
 				nbytes := 0
+				defer func() {
+					if p := recover(); p != nil { // a panic inside a codec: this goroutine's run failed
+						res[g] = trace.Event{"ev": "conc", "codec": c.name, "mode": c.mode, "g": g, "goroutines": goroutines, "iters": iters,
+							"fails": fails + 1, "first": fmt.Sprint("panic: ", p), "bytes": nbytes}
+					}
+				}()
 				for it := 0; it < iters; it++ {
 					n := concSizes[rng.Intn(len(concSizes))]
 					if g%3 == 0 && n > 4096 { // some goroutines hammer the pools with small streams
